@@ -39,7 +39,7 @@ func runC14(opt *Options) int {
 	// called with the arguments in the declared order (values and call arguments checked symbolically)
 	var roleConvs []*layerb.Conv
 	for _, c := range layerb.FamilyCustom(opt.Thorough()) {
-		for _, leaf := range []string{"custom/extend_ctx/", "custom/extend_ctx_first/", "custom/extend_regex_doc_ctx/", "custom/extend_conv/", "custom/extend_conv_last/", "custom/extend_conv_middle/", "custom/extend_conv_regexmatch/", "/fieldfunc/methodctx"} {
+		for _, leaf := range []string{"custom/extend_ctx/", "custom/extend_ctx_first/", "custom/extend_regex_doc_ctx/", "custom/extend_conv/", "custom/extend_conv_last/", "custom/extend_conv_middle/", "custom/extend_conv_regexmatch/", "/fieldfunc/methodctx", "/fieldfunc/getter_with_contexts"} {
 			if strings.Contains(c.ID, leaf) {
 				roleConvs = append(roleConvs, c)
 			}
